@@ -12,9 +12,16 @@
              equals the specification's answer for that route and request, no panic, and the captures /
              encoded-slash rejection of the selected route are the specified ones; additionally every
              (pattern, value) pair the specification needs must be in the recorded engine table (a miss fails).
-    v_guards : none — no finding is open. *)
-From HV Require Export Base.Prelude C03.Model C03.Spec.
-From HV Require Import C03.Proofs C03.ProofsTree.
+    v_guards : none — no finding is open.
+
+    Cases with a HISTORY ([c_hist], constructor [csh]): the repository was brought into its state by
+    AddRuleSet / UpdateRuleSet / DeleteRuleSet calls.  The model of the index is then C03/ReachHist.v
+    [hrun] — the shared compressed tree (Radix/Tree.v Add, C06/TreeDel.v Delete) driven as
+    repository_impl.go drives it — read as a C03 tree by [conv]; v_corr additionally compares which
+    operations were accepted.  For cases without a history the same model is run NEXT TO C03's own
+    transcription of Add ([load2]) and must give the same answers, request by request ([models_agree]). *)
+From HV Require Export Base.Prelude C03.Model C03.Spec C03.ReachHist.
+From HV Require Import C03.Proofs C03.ProofsTree C03.ReachConv.
 Open Scope string_scope.
 Open Scope list_scope.
 
@@ -27,7 +34,9 @@ Record reqobs := { ro_req : request; ro_calls : list call; ro_out : outcome;
 Record oentry := { oe_host : bool; oe_type : mtype; oe_pat : string; oe_val : string; oe_ans : bool }.
 
 Record case := {
-  c_rules : list ruledef; c_split : nat; c_oracle : list oentry; c_load : loadobs; c_reqs : list reqobs }.
+  c_rules : list ruledef; c_split : nat; c_oracle : list oentry; c_load : loadobs; c_reqs : list reqobs;
+  (* the history: rule set / id / hash class per rule, and the operations with what the repository answered *)
+  c_hist : option (list rmeta * list (hop * bool)) }.
 
 (** the engines as observed on this case's (pattern, value) pairs *)
 Definition eng_of (tbl : list oentry) : engine :=
@@ -138,20 +147,58 @@ Definition req_prop (otbl : list oentry) (eng : engine) (tbl : list sroute) (o :
 (** accepted or rejected; at which stage a rule set is rejected is not part of the statement *)
 Definition rejected_obs (a : loadobs) : bool := match a with OLoaded => false | _ => true end.
 
+(** the history a case without one stands for: AddRuleSet of the first [k] rules (rule set 0), then
+    AddRuleSet of the others (rule set 1) *)
+Definition split_metas (k n : nat) : list rmeta :=
+  map (fun i => {| rm_src := if Nat.ltb i k then 0 else 1; rm_id := i; rm_hash := i |}) (seq 0 n).
+Definition split_hops (k n : nat) : list hop :=
+  if Nat.leb n k then [HAdd (seq 0 n)] else [HAdd (seq 0 k); HAdd (seq k (n - k))].
+
+(** the shared-tree model and C03's own transcription of Add answer alike on this case
+    (only for the tree as it is now: the shared tree has the repairs of C03-F3 built in) *)
+Definition models_agree (fx1 fx2 fx3 fx5 fx6 : bool) (fx7 : dec) (eng : engine) (c : case)
+           (es : list centry) (t : tree) : bool :=
+  if negb fx3 then true else
+  let n := length (c_rules c) in
+  let '(st, oks) := hrun es (split_metas (c_split c) n) (split_hops (c_split c) n) in
+  let t2 := conv (h_tree st) in
+  match oks with
+  | true :: _ =>
+    forallb (fun o =>
+      let '(o1, c1) := serve fx1 fx2 fx5 fx6 fx7 eng es t (ro_req o) in
+      let '(o2, c2) := serve fx1 fx2 fx5 fx6 fx7 eng es t2 (ro_req o) in
+      outcome_eqb o1 o2 && calls_eqb c1 c2) (c_reqs c)
+  | _ => false
+  end.
+
 Definition check (fx1 fx2 fx3 fx4 fx5 fx6 : bool) (fx7 : dec) (c : case) : verdict :=
   let eng := eng_of (c_oracle c) in
   let tbl := flat_routes 0 (c_rules c) in
   (* the property on whatever the implementation served, also when the model refuses the rule set *)
   let obs_prop := forallb (req_prop (c_oracle c) eng tbl) (c_reqs c) in
-  match load2 fx3 fx4 (c_split c) (c_rules c) with
-  | Loaded es t =>
-    let corr := forallb (fun o =>
+  let corr_on es t := forallb (fun o =>
                   let '(mout, mcalls) := serve fx1 fx2 fx5 fx6 fx7 eng es t (ro_req o) in
                   outcome_eqb mout (ro_out o) &&
                   list_eqb proj_eqb (map call_proj mcalls) (map call_proj (ro_calls o))) (c_reqs c) in
-    {| v_corr := negb (rejected_obs (c_load c)) && corr; v_prop := obs_prop; v_guards := [] |}
+  match c_hist c with
+  | Some (metas, hops) =>
+    match create_rules fx4 (c_rules c) with
+    | Rejected => {| v_corr := rejected_obs (c_load c); v_prop := obs_prop; v_guards := [] |}
+    | Ok crs =>
+      let es := entries_of 0 crs in
+      let '(st, oks) := hrun es metas (map fst hops) in
+      {| v_corr := negb (rejected_obs (c_load c)) && list_eqb Bool.eqb oks (map snd hops) &&
+                   corr_on es (conv (h_tree st));
+         v_prop := obs_prop; v_guards := [] |}
+    end
+  | None =>
+  match load2 fx3 fx4 (c_split c) (c_rules c) with
+  | Loaded es t =>
+    {| v_corr := negb (rejected_obs (c_load c)) && corr_on es t && models_agree fx1 fx2 fx3 fx5 fx6 fx7 eng c es t;
+       v_prop := obs_prop; v_guards := [] |}
   | ModelFuel => {| v_corr := false; v_prop := obs_prop; v_guards := [] |}
   | _ => {| v_corr := rejected_obs (c_load c); v_prop := obs_prop; v_guards := [] |}
+  end
   end.
 
 (* ---- short constructors for the generated case files *)
@@ -164,4 +211,7 @@ Definition rq m s h p rp := {| q_method := m; q_scheme := s; q_host := h; q_path
 Definition cl v k vs r := {| k_vid := v; k_keys := k; k_vals := vs; k_res := r |}.
 Definition ro q cs o f := {| ro_req := q; ro_calls := cs; ro_out := o; ro_fresh := f |}.
 Definition oe h t p v a := {| oe_host := h; oe_type := t; oe_pat := p; oe_val := v; oe_ans := a |}.
-Definition cs r k o l q := {| c_rules := r; c_split := k; c_oracle := o; c_load := l; c_reqs := q |}.
+Definition cs r k o l q := {| c_rules := r; c_split := k; c_oracle := o; c_load := l; c_reqs := q; c_hist := None |}.
+Definition csh r ms hs o l q :=
+  {| c_rules := r; c_split := 0; c_oracle := o; c_load := l; c_reqs := q; c_hist := Some (ms, hs) |}.
+Definition rmt s i h := {| rm_src := s; rm_id := i; rm_hash := h |}.
